@@ -72,10 +72,13 @@ def w_sweep(case):
         deleted, badcrc = case.get('deleted', []), case.get('badcrc', [])
         secs, bits, spans = make_track(enc, nsect, deleted=deleted, bad_data_crc=badcrc)
         lo, hi = case.get('lo', 0), case.get('hi', 0xFFFFFFFF)
-        r = mcx.call('san', mcx.req_sweep(enc, kind, param, bits, lo, hi), timeout=90)
+        r = mcx.call('san', mcx.req_sweep(enc, kind, param, bits, lo, hi), timeout=60)
+        if r.timeout:
+            # confirm alone with a longer limit before calling it a hang (a sweep normally takes a few seconds)
+            r = mcx.call('san', mcx.req_sweep(enc, kind, param, bits, lo, hi), timeout=150)
         if r.timeout:
             # a decoder that never returns on some damaged track (normal sweeps take a few seconds)
-            res['viol'].append(('C06:sweep:decoder-hang', '%s sweep %s over bits %d..%d of a %d-sector track did not finish in 90 s' % (enc, KINDS.get(kind, kind), lo, min(hi, len(bits)), nsect)))
+            res['viol'].append(('C06:sweep:decoder-hang', '%s sweep %s over bits %d..%d of a %d-sector track did not finish in 60 s nor, run again, in 150 s' % (enc, KINDS.get(kind, kind), lo, min(hi, len(bits)), nsect)))
             res['case'] = case
             return res
         if r.status() != 'exit0':
@@ -469,7 +472,7 @@ FAMILIES = [('S-single-faults-3-sector-tracks', fam_single), ('D-deleted-and-bad
 
 
 def main(tier, seed):
-    ctx = core.Ctx(PID, tier, 'fault_enumeration', seed, quick_s=240, thorough_s=2700)
+    ctx = core.Ctx(PID, tier, 'fault_enumeration', seed, quick_s=300, thorough_s=2700)
     ctx.rule = ('Decoder level (real decode_fm_track/decode_mfm_track in-process under ASan): every single bit flip, '
                 'deletion, insertion, zeroed run and truncation point of valid tracks with distinct per-sector data, and '
                 'pairs of flips over the field-structure bits; each yielded sector must pass CRC-16/CCITT over mark+data+crc '
